@@ -56,7 +56,7 @@ func showBytesErr(d []byte, err error) string {
 
 func init() {
 	// segments: args = forced segment number, segment size ("nil" = nil options), multi pairs, block pairs, files…
-	core.Register("segments", func(args []string) string {
+	segmentsHandler := func(args []string) string {
 		dir := tmpDir()
 		defer os.RemoveAll(dir)
 		files := args[4:]
@@ -85,7 +85,10 @@ func init() {
 			}
 		}
 		return strings.Join(ls, ";") + "|" + strings.Join(ms, ";") + "|" + strings.Join(bs, ";") + "|" + strings.Join(gi, ";")
-	})
+	}
+	core.Register("segments", segmentsHandler)
+	// seggaps: the same with one segment file missing ("~")
+	core.Register("seggaps", segmentsHandler)
 
 	// segpath: args = paths (hex), (global block, segment size) pairs
 	core.Register("segpath", func(args []string) string {
